@@ -51,6 +51,7 @@ fn required(plan: &Plan) -> Vec<String> {
     }
     v.push("merge:ancestor".into());
     v.push("merge:chain".into());
+    v.push("merge:sibling-of-covered-value".into());
     v.push("merge:source-ends-in-first-item".into());
     for d in plan.reg {
         if super::chain::eligible(d, super::chain::Fin::Presize) {
@@ -222,8 +223,17 @@ fn merge_twin<E: Entry>(ctx: &mut Ctx) {
         let v = if k == 0 { first.clone() } else { draw::<E>(ctx, &pool, m.issued.last().map(|x| &x.1)) };
         let form = ctx.rng.below(nforms);
         if E::coded() {
-            // within the acceptance contract: values the sources contained must be accepted
-            let is_covered = covered.iter().any(|c| c.same(&v));
+            // within the acceptance contract: values the sources contained must be accepted, and
+            // so must their siblings - values the sources never saw but whose first bytes /
+            // symbols they did see at the same place (stored literally by a dictionary codec)
+            let as_sibling = !covered.is_empty() && k > 0 && ctx.rng.chance(1, 3);
+            let v = if as_sibling {
+                ctx.cover("merge:sibling-of-covered-value");
+                covered[ctx.rng.below(covered.len())].sibling()
+            } else {
+                v
+            };
+            let is_covered = as_sibling || covered.iter().any(|c| c.same(&v));
             match m.try_push(ctx, &v, form) {
                 Ok(_) => {
                     ctx.nontrivial = true;
